@@ -208,7 +208,12 @@ def _start_state(cfg, s, smp):
     sweep on: pop_control_ene_shift != e_estimate, diverse walkers, weights after SR."""
     pd0 = lab.init_state(s, cfg["jax_seed"], harness=False)
     if cfg.get("warm"):
-        e, _, pd1 = lab.call_entry(s, smp, "plain", None, pd0, prop=s.plain)
+        # through the cell's own entry point: the no-SR entry points leave uneven weights, so the driver's
+        # reconfiguration that follows really changes the population (and leaves the stored overlaps stale)
+        entry, mode = cfg.get("entry", "plain"), cfg.get("ad_mode")
+        if entry == "plain":
+            mode = None
+        e, _, pd1 = lab.call_entry(s, smp, entry, mode, pd0, prop=s.plain)
         if np.isfinite(float(np.asarray(e))) and float(np.sum(np.asarray(pd1["weights"]))) > 0:
             pd0 = lab.driver_glue(s, pd1, e, prop=s.plain)
     return pd0
